@@ -123,6 +123,7 @@ package proxy
 //@   ensures [length] len(result) <= len(a) + len(b) + 1 && len(result) >= len(a) + len(b) - 1
 
 //@ unit proxy_conns frames=on props=C05,C17,C04 filter=`proxy\.Proxy\)\.ServeHTTP$|proxy\.newBufferedBody$`
+//@ spec canon(s string) string
 //@ use caskethttp/httpserver/contracts_verif.go:new_replacer
 //@ func (*bufferedBody).rewind
 //@ func (Proxy).match
@@ -137,6 +138,7 @@ package proxy
 //@ func createUpstreamRequest
 //@   modifies MV:map[string][]string, MD:map[string][]string, Request.Header, Request.Body
 //@   requires [request_with_headers] r != nil && r.Header != nil
+//@   requires [request_header_keys_are_canonical] forallT(f, string, has(r.Header, f) ==> canon(f) == f)
 //@   ensures result0 != nil && result0.Header != nil && result0.URL == r.URL
 //@ extern net/url.Parse
 //@   ensures result1 == nil ==> result0 != nil
@@ -193,6 +195,8 @@ package proxy
 //@   // a live request has its URL; the handler's upstream blocks are the ones the setup built (unit proxy_setup: NewStaticUpstreams
 //@   // returns no nil entry)
 //@   requires r.URL != nil && forall(k, 0, len(p.Upstreams), p.Upstreams[k] != nil)
+//@   // what net/http hands a handler: header fields filed under their canonical names (createUpstreamRequest relies on it)
+//@   requires forallT(f, string, has(r.Header, f) ==> canon(f) == f)
 //@   at call (*ReverseProxy).ServeHTTP do lastTooLarge = tl(result, httpserver.ErrMaxBytesExceeded)
 //@   // C04 "exactly the configured header_upstream / header_downstream changes applied": a backend whose block has a rule
 //@   // set for a direction (plain rules and regex replacements live in separate maps; the plain map is non-nil whenever the
@@ -210,6 +214,31 @@ package proxy
 //@   ensures_on_panic [conns_balance_p] unchanged("UpstreamHost.Conns")
 //@   loop 1 invariant unchanged("UpstreamHost.Conns")
 //@   loop 1 invariant [no_too_large_error_carried_into_a_retry] lastTooLarge != 1
+
+//@ unit copy_header frames=on props=C04 nilchecks=on filter=`proxy\.copyHeader$`
+//@ // what upstream_request and response_hop_headers assume of copyHeader, proved: only the destination map is written, and
+//@ // every key it holds afterwards was there before or is the canonical form of a key of the source (Header.Add files
+//@ // under the canonical key, so a source key written in another case arrives canonicalised; a source key with no values
+//@ // adds nothing and - when the destination already had it - removes it)
+//@ spec canon(s string) string
+//@ invariant skipHeaders != nil
+//@ extern (net/http.Header).Del
+//@   modifies MV:map[string][]string, MD:map[string][]string
+//@   ensures !has(h, canon(key)) && forallT(k, string, k != canon(key) ==> (has(h, k) == old(has(h, k)) && h[k] == old(h[k])))
+//@   ensures forallT(m, http.Header, m != h ==> forallT(k, string, has(m, k) == old(has(m, k)) && m[k] == old(m[k])))
+//@ extern (net/http.Header).Add
+//@   modifies MV:map[string][]string, MD:map[string][]string
+//@   ensures has(h, canon(key)) && forallT(k, string, k != canon(key) ==> (has(h, k) == old(has(h, k)) && h[k] == old(h[k])))
+//@   ensures forallT(m, http.Header, m != h ==> forallT(k, string, has(m, k) == old(has(m, k)) && m[k] == old(m[k])))
+//@ define fromSrcOrBefore() bool = forallT(k, string, has(dst, k) ==> (old(has(dst, k)) || existsT(f, string, has(src, f) && canon(f) == k)))
+//@ define othersKept() bool = forallT(m, http.Header, m != dst ==> forallT(k, string, has(m, k) == old(has(m, k)) && m[k] == old(m[k])))
+//@ func copyHeader
+//@   requires dst != nil && dst != src
+//@   modifies MV:map[string][]string, MD:map[string][]string
+//@   ensures [only_the_destination_is_written] othersKept()
+//@   ensures [keys_are_old_ones_or_canonical_source_keys] fromSrcOrBefore()
+//@   loop 1 invariant dst != nil && othersKept() && fromSrcOrBefore()
+//@   loop 2 invariant dst != nil && othersKept() && fromSrcOrBefore() && has(src, k)
 
 //@ unit upstream_request frames=on props=C04 filter=`proxy\.createUpstreamRequest$`
 //@ spec canon(s string) string
@@ -242,10 +271,12 @@ package proxy
 //@ extern net.SplitHostPort
 //@   ensures result2 == nil ==> result0 == hostOf(hostport)
 
+//@ // proved in unit copy_header (the earlier assumption "dst has exactly its old keys plus the source's" was too strong:
+//@ // Header.Add files under the canonical key, and a source key without values adds nothing)
 //@ func copyHeader
 //@   modifies MV:map[string][]string, MD:map[string][]string
-//@   requires dst != nil
-//@   ensures forallT(k, string, has(dst, k) == (old(has(dst, k)) || has(src, k)))
+//@   requires dst != nil && dst != src
+//@   ensures forallT(k, string, has(dst, k) ==> (old(has(dst, k)) || existsT(f, string, has(src, f) && canon(f) == k)))
 //@   ensures forallT(m, http.Header, m != dst ==> forallT(k, string, has(m, k) == old(has(m, k)) && m[k] == old(m[k])))
 
 //@ define nm(v string, b int) string = canon(trim(tok(v, b)))
@@ -256,6 +287,9 @@ package proxy
 //@ define clientUntouched() bool = forallT(k, string, has(r.Header, k) == old(has(r.Header, k)) && r.Header[k] == old(r.Header[k]))
 //@ func createUpstreamRequest
 //@   requires r != nil && r.Header != nil
+//@   // the request's header map has canonical keys only (net/http's reader files every field under its canonical name; a
+//@   // middleware writing r.Header["x-foo"] directly would break this): needed because the copy canonicalises keys
+//@   requires [request_header_keys_are_canonical] forallT(f, string, has(r.Header, f) ==> canon(f) == f)
 //@   modifies MV:map[string][]string, MD:map[string][]string, Request.Header, Request.Body
 //@   ensures [fresh_request] result0 != nil && result0 != r && result0.Header != nil
 //@   ensures [same_url_object] result0.URL == old(r.URL)
@@ -450,8 +484,12 @@ package proxy
 //@ func newConnHijackerTransport
 //@ func (*ReverseProxy).copyResponse
 //@   requires rp != nil && rp.FlushInterval >= 0
+//@ // copy_header proves this function under `dst != src` as well. NOT demanded here: the destination is the client writer's
+//@ // header map, the source the map of the response the transport just returned - two allocations of net/http that the
+//@ // engine cannot tell apart by construction (an explicit, undischarged separation premise, like header_rules')
 //@ func copyHeader
 //@   modifies MV:map[string][]string, MD:map[string][]string
+//@   requires dst != nil
 //@ // Response side of "hop-by-hop headers (including any named in Connection) removed": when the static hop-by-hop list
 //@ // (which contains Connection itself) starts to be deleted from the backend's response, every header named on ANY
 //@ // Connection line of that response is already gone. Same vocabulary as unit upstream_request: tok/ntok are
